@@ -63,6 +63,7 @@ enum Route {
     RT_COPY,         // copy of a virtual_ptr
     RT_MOVE,         // move of a virtual_ptr
     RT_FROM_D,       // object of C++ type NodeD passed as Node& (lookup branch, adjusted address)
+    RT_HELD,         // a virtual_ptr created earlier (hold_vptrs) and kept across updates
     RT_COUNT
 };
 
@@ -106,6 +107,7 @@ struct IWorld {
     virtual void hard_reset() = 0; // as a fresh process: catalogs + installed state
     virtual void soft_reset() = 0; // catalogs only
     virtual void materialize(const Registry& r) = 0;
+    virtual void bind(const Registry& r) = 0; // static ids / slots only (histories)
     virtual UpdateResult update() = 0;
     virtual void set_handler(HandlerMode m) = 0;
 
@@ -134,10 +136,16 @@ struct IWorld {
     virtual void* resolve(const Registry& r, int m, const CallSpec& cs, Outcome& out) = 0;
     virtual VptrProbe probe_vptr(const Registry& r, int cls, int alias, int route, bool shared) = 0;
     virtual Node* object(int cls, int alias, bool derived) = 0;
+    // create and keep one virtual_ptr / virtual_shared_ptr per class (route RT_HELD uses them)
+    virtual Outcome hold_vptrs(const Registry& r) = 0;
 
     // hash (C05)
     virtual bool hash_info(type_id& mult, size_t& shift, size_t& length, size_t& vptrs_size, size_t& control_size) = 0;
     virtual Outcome hash_id(type_id id, type_id& index) = 0;
+    // drive Policy::hash_initialize directly with synthetic classes (one id list per class)
+    virtual Outcome hash_init(const std::vector<std::vector<type_id>>& classes) = 0;
+    virtual bool set_hash_budget(size_t attempts) = 0; // guarded hook; false when absent
+    virtual Outcome try_lookup(type_id id, const std::uintptr_t*& vptr) = 0;
 
     // generator (C12 / C13)
     virtual std::string write_static_offsets() = 0;
